@@ -5,6 +5,8 @@ package main
 
 import (
 	"fmt"
+	"io"
+	"log"
 	"os"
 	"runtime/debug"
 
@@ -18,6 +20,7 @@ func main() {
 		os.Exit(2)
 	}
 	id := os.Args[1]
+	log.SetOutput(io.Discard) // the library logs deprecation notes to stderr
 	tier := os.Getenv("VERIF_TIER")
 	if tier == "" {
 		tier = "quick"
